@@ -3,7 +3,7 @@ ALL = ["C%02d" % i for i in range(1, 37)]
 
 BASELINE_OFF = ("cd /repo && GOFLAGS=-mod=mod GOPROXY=off GOSUMDB=off GOTOOLCHAIN=local "
                 "go test -json -vet=off -count=1 -timeout 25m ./...")
-HOOK_COMMITS = ["d9bd3981", "91affb0d", "895625aa", "a0f266b2"]
+HOOK_COMMITS = ["d9bd3981", "91affb0d", "895625aa", "a0f266b2", "acb6a1da"]
 
 NOTES = ("Every check: TLC design check of the TLA+ module, then TLC-generated behaviours replayed against /repo's "
          "working tree (harness rebuilt on every run with -tags verif) and/or recorded traces validated by TLC. "
@@ -21,6 +21,51 @@ _MC = ("TLC explores the bounded %s specification exhaustively (design check of 
        "real bio-rd objects with the complete projected state compared after each step")
 
 CHECKS = {
+    "C27": {
+        "text": "BMPWire is the grammar of what a monitored router can send (7 message kinds with byte-exact layouts) and 23 families of "
+                "structured mutations: common-header length 0,1,5,6,true+-1,4096,4097,65535,2^16,2^20,2^20+1,2^24,2^31-1,2^31,2^32-1; wrong "
+                "version; unknown type; stream cut inside header / per-peer header / body; body of one kind under the type code of another; "
+                "TLV length 0/true+-1/255/65535, empty TLV, TLV header cut, unknown TLV type, up to 10000 empty TLVs; termination reason TLV "
+                "of 0,1,3,4 bytes; statistics count 0..2^32-1; 16 mutations of the sent / received OPEN of a peer-up (AS, 4-octet AS, BGP id, "
+                "version, hold time, truncation, option lengths, capabilities) so that the OPENs disagree with the per-peer header; per-peer "
+                "header mutations; unknown and duplicate peers; peer-down reason x data; route monitoring / mirroring carrying NOTIFICATION, "
+                "OPEN, KEEPALIVE, ROUTE-REFRESH, unknown types, lying BGP lengths, bad marker, malformed attributes / NLRI; plus seeded random "
+                "fills of the body, of the whole message and of the whole stream. TLC enumerates prefix (none / Initiation / + peer-up of an "
+                "eBGP or iBGP session and a route) x kind x mutation and checks the laws of the grammar and of the intended framing. Every case "
+                "is concretised into bytes (valid parts by the repository's own serialisers; the encoding must have exactly the spec's sizes) "
+                "and served to a real Router (verif constructor) over net.Pipe inside the replay process, followed by valid traffic and a "
+                "close. Verdict: the serving goroutine does not panic; every write is taken or the session ends within 5 s and serve returns "
+                "within 5 s of the close (no wedge); runtime TotalAlloc over the case <= 4 MiB + 64 x bytes sent (the 1 MiB message cap of "
+                "the repaired framing has a 4x margin; all cases of the fixed tree stay below 2 MiB).",
+        "note": "Limit: the structured mutation space of specs/BMPWire.tla plus seeded random fills, not all byte strings (no coverage-guided "
+                "fuzzing in this family). Only Router.serve and below is driven (BMPReceiver's listener / reconnect loop is not). Trusted: the "
+                "verif-tagged constructor, net.Pipe synchronisation, MemStats.TotalAlloc as the allocation measure; an 8 GiB address-space "
+                "ceiling and a 3 GiB RSS guard in the replay process turn a runaway allocation into a process death that the runner attributes "
+                "to the case. 7 defects repaired (framing, statistics count, reason TLV, quadratic log line, route monitoring error path, "
+                "peer-up OPEN mismatch, nil next hop compare).",
+        "technique": "TLA+ wire-grammar spec BMPWire enumerated by TLC (cases + laws); per-case byte-level replay against a real BMP Router over "
+                     "net.Pipe with panic capture, write deadlines and an allocation budget",
+    },
+    "C28": {
+        "text": _MC % "BMP" + " (invariants MirrorsSessions: table[vrf] = union of the pre- and post-policy Adj-RIB-In views of the up "
+                "sessions of that VRF; NothingRemains after peer-down / termination / connection loss; ObserversInformed; views the receiver "
+                "is configured to ignore stay out). Sessions: eBGP and iBGP, add-path receive negotiated by the two OPENs, an IPv6 session, "
+                "the same peer address in two VRFs; actions Initiation, PeerUp, RouteMon (announce / withdraw, view, path id), route "
+                "monitoring for a session that is not up, End-of-RIB / statistics / route mirroring, PeerDown, Termination, ConnLoss, "
+                "Reconnect, Observe. Four session families are emitted completely (every transition of the whole reachable graph; the same "
+                "TLC run is the design check), plus seeded random conversations of 14-16 messages over 4 sessions x 2 VRFs. Every message "
+                "is built with the repository's own BMP / BGP serialisers and served to a real Router (verif constructor) over net.Pipe; "
+                "after every message Router.GetVRF(rd) Loc-RIB dumps (IPv4 + IPv6: session, prefix, path id, view flag, next hop, AS path, "
+                "MED, communities, LOCAL_PREF of iBGP sessions) and recording observers registered on those tables (all paths) are compared; "
+                "after a session end an observer must have been told Dispose() or hold nothing. Replayed with IPv4 and IPv6 prefix embeddings.",
+        "note": "Trusted: TLC, the verif-tagged constructor, the projection. Left open on purpose: where BOTH views of one session hold the same "
+                "(prefix, path id) the table may keep either or both (the statement does not say how the views share a table); whether an "
+                "empty VRF object exists; LOCAL_PREF of routes from eBGP sessions. One UPDATE carries one NLRI (several NLRI per UPDATE are "
+                "C20). One defect repaired (add-path receive never enabled), one known finding (the two policy views share one Adj-RIB-In: a "
+                "withdrawal in one view removes the route of the other).",
+        "technique": "TLA+ spec BMP + TLC exhaustive check; behaviour replay (complete transition graphs + simulation) against a real BMP Router "
+                     "served over net.Pipe, Loc-RIB dumps and recording observers compared after every message",
+    },
     "C30": {
         "text": "ISISWire defines abstract IS-IS PDUs (P2P hello, L2 LSP, CSNP, PSNP: class of fixed values zero/typical/all-ones + TLV "
                 "descriptors [kind, items, width]) and their byte layout (field sizes -> total length, PDU length field, offset of every "
